@@ -237,7 +237,12 @@ def main():
     m_be = tlc("MCAtomics", cfg="Atomics_BEMutex.cfg", workers=4, timeout=900)
     m_fix = tlc_ok(tlc("MCAtomics", cfg="Atomics_BEMutexStoreLocked.cfg", workers=4, timeout=900), "Atomics BE with locked stores")
     # 2a. the same-width scenarios in both byte order configurations (results only: the raw image of the forced one is reversed)
-    st0, _ = machine.replay(v, isolated_items(rng), [{"name": "le", "cc": "gcc", "cflags": ("-O1",)},
+    iso = isolated_items(rng)
+    # ... and in a shared memory declared with the largest maximum there is (65536 pages: 4 GiB of address space, allocated up front,
+    # touched in its first page): an in-bounds atomic access is the same access
+    iso.append({"id": iso[0]["id"] + "_max65536", "module": dict(iso[0]["module"], memory={"min": 1, "max": 65536, "shared": True}),
+                "script": iso[0]["script"][:1] + iso[0]["script"][1:][:90]})
+    st0, _ = machine.replay(v, iso, [{"name": "le", "cc": "gcc", "cflags": ("-O1",)},
                                                        {"name": "be-forced", "cc": "gcc", "cflags": ("-O1",), "defs": ("-DWASM_ENDIAN=1",)}],
                             sigfn=lambda it, k, why, b, e, a: "iso:%s:%s:%s" % (b["name"], it["script"][k - 1].get("export", "?"), why.split(":")[0]), observe_mems=False)
     # 2. sequential semantics of all flavours (machine replay)
